@@ -3,6 +3,7 @@ package main
 import (
 	"fmt"
 	"go/token"
+	"go/types"
 	"strings"
 
 	"golang.org/x/tools/go/ssa"
@@ -132,4 +133,78 @@ func ruleR08a(c *Ctx) {
 	})
 	c.floor("R08a", "soy functions reachable from the render/JS entries", 150, nf)
 	c.floor("R08a", "write sites classified", 60, nw)
+}
+
+// readOnlyLibraryReceivers: library types whose methods do not change what later calls observe.
+var readOnlyLibraryReceivers = []string{"*regexp.Regexp", "*log.Logger", "reflect.Type", "*reflect.rtype", "time.Time", "*time.Location"}
+
+// R08d: a package-level object of the module is not handed to a library call that may keep state in it
+// (pools, caches, once, mutex-guarded memo tables, builders ...).
+func ruleR08d(c *Ctx) {
+	entries := c.entryFuncs(renderEntries)
+	if len(entries) != len(renderEntries) {
+		return
+	}
+	cg := c.VTA()
+	e := newEffects(c, cg, entries)
+	fns := e.soyReachable()
+	n, bad := 0, 0
+	for _, f := range fns {
+		ord := 0
+		for _, b := range f.Blocks {
+			for _, in := range b.Instrs {
+				ci, ok := in.(ssa.CallInstruction)
+				if !ok {
+					continue
+				}
+				com := ci.Common()
+				var callee string
+				var recv ssa.Value
+				if com.IsInvoke() {
+					continue // interface calls are resolved through the call graph to module code or caller-supplied objects
+				}
+				sc := com.StaticCallee()
+				if sc == nil || isSoyFunc(sc) || sc.Signature.Recv() == nil || len(com.Args) == 0 {
+					continue
+				}
+				callee = sc.String()
+				recv = com.Args[0]
+				if _, ok := recv.Type().Underlying().(*types.Pointer); !ok {
+					continue
+				}
+				// receiver rooted at a package variable of the module?
+				root := stripAddr(recv)
+				var g *ssa.Global
+				if gg, ok := root.(*ssa.Global); ok {
+					g = gg
+				} else if u, ok := root.(*ssa.UnOp); ok {
+					if gg, ok := u.X.(*ssa.Global); ok {
+						g = gg
+					}
+				}
+				if g == nil || g.Pkg == nil || !isSoyPkg(g.Pkg.Pkg) {
+					continue
+				}
+				n++
+				ord++
+				key := fmt.Sprintf("%s calls %s on package variable %s#%d", e.funcKey(f), sc.Name(), g.Name(), ord)
+				ro := false
+				rt := recv.Type().String()
+				for _, t := range readOnlyLibraryReceivers {
+					if rt == t {
+						ro = true
+					}
+				}
+				if ro {
+					c.ok("R08d", key, in.Pos(), "the library type "+rt+" keeps no state that a later render could observe")
+				} else {
+					bad++
+					c.bad("R08d", key, in.Pos(), "the package-level "+g.Name()+" ("+rt+") is used through "+callee+" while rendering: state kept in it (a pool, cache, once or builder) survives the render and can reach later or concurrent renders")
+				}
+			}
+		}
+	}
+	if n == 0 {
+		c.ok("R08d", "render-path#no-stateful-library-object-at-package-level", entries[0].Pos(), "no method of a library type is called on a package variable of the module while rendering")
+	}
 }
